@@ -114,9 +114,9 @@ ProgMutants(pi) ==
 
 \* ---------------- literal spellings ------------------------------------------------------------
 \* numbers: the dyadic rational kk / 2^jj
-NumValues == {<<0, 0>>, <<1, 0>>, <<7, 0>>, <<8, 0>>, <<10, 0>>, <<15, 0>>, <<16, 0>>, <<100, 0>>, <<255, 0>>, <<256, 0>>,
+NumValues == {<<0, 0>>, <<1, 0>>, <<7, 0>>, <<8, 0>>, <<10, 0>>, <<14, 0>>, <<30, 0>>, <<15, 0>>, <<16, 0>>, <<100, 0>>, <<255, 0>>, <<256, 0>>,
               <<1000, 0>>, <<65535, 0>>, <<1, 1>>, <<3, 1>>, <<1, 2>>, <<5, 3>>, <<25, 2>>, <<1, 4>>}
-QuickNumValues == {<<0, 0>>, <<1, 0>>, <<8, 0>>, <<10, 0>>, <<255, 0>>, <<1000, 0>>, <<1, 1>>, <<3, 1>>, <<5, 3>>}
+QuickNumValues == {<<0, 0>>, <<1, 0>>, <<8, 0>>, <<10, 0>>, <<14, 0>>, <<255, 0>>, <<1000, 0>>, <<1, 1>>, <<3, 1>>, <<5, 3>>, <<1, 4>>}
 RECURSIVE DigitsOfN(_)
 DigitsOfN(nn) == IF nn < 10 THEN <<48 + nn>> ELSE Append(DigitsOfN(nn \div 10), 48 + (nn % 10))
 RECURSIVE RadixDigits(_, _, _)
@@ -278,12 +278,158 @@ UnitsX(us) == IF \A ui \in 1..Len(us) : us[ui] # 13 THEN us ELSE UnitsXFrom(us, 
 ClassesOfUnitsX(us) == ClassesOfUnits(UnitsX(us))
 TextSupportedX(us) == TextSupported(UnitsX(us))
 
+\* ---------------- numeric literal forms: the product of the parts of the lexical grammar --------
+\*   DecimalLiteral ::  Int . Frac? Exp?  |  . Frac Exp?  |  Int Exp?          Exp ::  (e | E) (+ | -)? Digits
+\*   radix forms    ::  0 (x | X) HexDigits  |  0 (o | O) OctalDigits  |  0 (b | B) BinaryDigits
+\* NumSpellings above is a hand-written list of forms (kept); here every PART of the literal is a dimension of its own
+\* and the space is their product: mantissa shape (integer / integer + dot / fraction, minimal or zero-padded /
+\* leading dot) x exponent part (none, e or E) x exponent sign (none + -) x exponent digits (plain, zero-padded) x
+\* the exponent's value (negative, zero, positive; one and two digits).  The value kk / 2^jj = mm / 10^jj (mm = kk * 5^jj)
+\* written with the exponent ee has the mantissa mm * 10^-(jj + ee): the decimal point moves through the digit string
+\* (no arithmetic on the shifted number, so long mantissas do not overflow TLC's integers).
+CanonNum(kk, jj) == IF jj = 0 THEN DigitsOfN(kk) ELSE FixedText(kk * Pow5(jj), jj)
+CanonNumDot(kk, jj) == IF jj = 0 THEN DigitsOfN(kk) \o <<46, 48>> ELSE FixedText(kk * Pow5(jj), jj)
+RECURSIVE StripTZ(_)
+StripTZ(ds) == IF ds # <<>> /\ ds[Len(ds)] = 48 THEN StripTZ(SubSeq(ds, 1, Len(ds) - 1)) ELSE ds
+RECURSIVE StripLZ(_)
+StripLZ(ds) == IF ds # <<>> /\ ds[1] = 48 THEN StripLZ(Tail(ds)) ELSE ds
+\* integer part and (minimal) fraction part of mm * 10^-sh
+MantParts(mm, sh) ==
+  LET dd == DigitsOfN(mm) IN
+  IF mm = 0 THEN [ip |-> <<48>>, fp |-> <<>>]
+  ELSE IF sh <= 0 THEN [ip |-> dd \o Zeros(0 - sh), fp |-> <<>>]
+  ELSE LET pd == IF Len(dd) <= sh THEN Zeros(sh - Len(dd) + 1) \o dd ELSE dd IN
+       [ip |-> SubSeq(pd, 1, Len(pd) - sh), fp |-> StripTZ(SubSeq(pd, Len(pd) - sh + 1, Len(pd)))]
+MantShapes == {"int", "idot", "frac", "fracz", "fraczz", "ldot", "ldotz"}
+\* <<>> where the shape cannot write the mantissa (a fraction needs "frac"; a leading dot needs the integer part 0)
+MantText(mp, shp) ==
+  CASE shp = "int"    -> IF mp.fp = <<>> THEN mp.ip ELSE <<>>                                    \* 1000
+    [] shp = "idot"   -> IF mp.fp = <<>> THEN mp.ip \o <<46>> ELSE <<>>                          \* 1000.
+    [] shp = "frac"   -> IF mp.fp # <<>> THEN mp.ip \o <<46>> \o mp.fp ELSE <<>>                 \* 1.5
+    [] shp = "fracz"  -> mp.ip \o <<46>> \o mp.fp \o <<48>>                                      \* 1.50  1000.0
+    [] shp = "fraczz" -> mp.ip \o <<46>> \o mp.fp \o <<48, 48>>                                  \* 1.500 1000.00
+    [] shp = "ldot"   -> IF mp.ip = <<48>> /\ mp.fp # <<>> THEN <<46>> \o mp.fp ELSE <<>>         \* .5
+    [] shp = "ldotz"  -> IF mp.ip = <<48>> THEN <<46>> \o mp.fp \o <<48>> ELSE <<>>               \* .50   .0
+\* exponent part: lt = 0 (none) / 101 e / 69 E ; sg = "" "+" "-" ; zp = number of zeros before the exponent's digits
+ExpLetters == {0, 101, 69}
+ExpSigns   == {"", "+", "-"}
+ExpOK(ee, lt, sg, zp) == IF lt = 0 THEN ee = 0 /\ sg = "" /\ zp = 0 ELSE IF sg = "-" THEN ee <= 0 ELSE ee >= 0
+ExpText(ee, lt, sg, zp) ==
+  IF lt = 0 THEN <<>>
+  ELSE <<lt>> \o (IF sg = "+" THEN <<43>> ELSE IF sg = "-" THEN <<45>> ELSE <<>>) \o Zeros(zp) \o DigitsOfN(IF ee < 0 THEN 0 - ee ELSE ee)
+\* descriptor <<kk, jj, ee, shape, lt, sg, zp>>
+NumFormText(ds) == LET mt == MantText(MantParts(ds[1] * Pow5(ds[2]), ds[2] + ds[3]), ds[4]) IN
+                   IF mt = <<>> THEN <<>> ELSE mt \o ExpText(ds[3], ds[5], ds[6], ds[7])
+NumFormDescs(VV, EE, ZP) ==
+  {ds \in {<<vv[1], vv[2], ee, shp, lt, sg, zp>> : vv \in VV, ee \in EE, shp \in MantShapes, lt \in ExpLetters, sg \in ExpSigns, zp \in ZP} :
+     ExpOK(ds[3], ds[5], ds[6], ds[7]) /\ NumFormText(ds) # <<>>}
+\* radix forms: descriptor <<kk, radix, prefix case, digit case (l u m = alternating), zeros after the prefix>>
+HexCase(ds, md) == [hi \in 1..Len(ds) |-> IF ds[hi] >= 97 /\ (md = "u" \/ (md = "m" /\ hi % 2 = 1)) THEN ds[hi] - 32 ELSE ds[hi]]
+RadixPrefix(radix, px) == CASE radix = 16 -> (IF px = "l" THEN 120 ELSE 88) [] radix = 8 -> (IF px = "l" THEN 111 ELSE 79) [] radix = 2 -> (IF px = "l" THEN 98 ELSE 66)
+RadixFormText(ds) == <<48, RadixPrefix(ds[2], ds[3])>> \o Zeros(ds[5]) \o HexCase(RadixDigits(ds[1], ds[2], FALSE), ds[4])
+DigitCases(radix) == IF radix = 16 THEN {"l", "u", "m"} ELSE {"l"}
+RadixFormDescs(VV, NZ) == UNION {{<<vv[1], radix, px, md, nz>> : px \in {"l", "u"}, md \in DigitCases(radix), nz \in NZ} : vv \in {ww \in VV : ww[2] = 0}, radix \in {16, 8, 2}}
+\* the exponent values: every sign class with one digit and with two digits
+NumExps == IF Quick THEN {-10, -1, 0, 1, 3, 10} ELSE {-12, -10, -3, -2, -1, 0, 1, 2, 3, 10, 12}
+NumFormDescsAll == NumFormDescs(IF Quick THEN QuickNumValues ELSE NumValues, NumExps, {0, 1})
+RadixFormDescsAll == RadixFormDescs(IF Quick THEN QuickNumValues ELSE NumValues, {0, 1, 2})
+NumFormCases == {[kind |-> "num", a |-> <<ds[1], ds[2]>>, u |-> NumFormText(ds)] : ds \in NumFormDescsAll}
+                \cup {[kind |-> "num", a |-> <<ds[1], 0>>, u |-> RadixFormText(ds)] : ds \in RadixFormDescsAll}
+
+\* the literal's POSITION: what stands directly before / after it (nothing - the literal is the whole source or its
+\* end -, a bracket of each kind, the operators that share a character with the literal's own parts (+ - . /), a
+\* comment, a line break, the other separators), every spelling written into every position without blanks round it.
+\* The value of each program is the value of the literal.
+NumCtx == <<
+  <<"<L1>">>,
+  <<"var", "r", ";", "r", "=", "<L1>">>,
+  <<"var", "r", "=", "<+>", "<L1>", "<+>", ";", "r", ";">>,
+  <<"var", "r", "=", "[", "<+>", "<L1>", "<+>", "]", "[", "0", "]", ";", "r", ";">>,
+  <<"var", "r", "=", "(", "<+>", "<L1>", "<+>", ")", ";", "r", ";">>,
+  <<"var", "r", "=", "<L1>", "<+>", "+", "<+>", "0", ";", "r", ";">>,
+  <<"var", "r", "=", "0", "<+>", "+", "<+>", "<L1>", ";", "r", ";">>,
+  <<"var", "r", "=", "<L1>", "<+>", "/", "<+>", "1", ";", "r", ";">>,
+  <<"var", "r", "=", "<L1>", "<+>", ".", "<+>", "valueOf", "(", ")", ";", "r", ";">>,
+  <<"var", "r", "=", "<L1>", "<+>", "<c1>", ";", "r", ";">>,
+  <<"var", "r", "=", "<L1>", "<+>", "<lc>", "<+>", ";", "r", ";">>,
+  <<"var", "r", "=", "<L1>", "<+>", "<nl>", "<+>", "r", ";">>,
+  <<"var", "r", "=", "1", "?", "<L1>", "<+>", ":", "<+>", "<L1>", ";", "r", ";">>,
+  <<"var", "r", "=", "Math", ".", "max", "(", "<+>", "<L1>", "<+>", ",", "<+>", "<L1>", "<+>", ")", ";", "r", ";">>,
+  <<"var", "r", "=", "{", "k", ":", "<+>", "<L1>", "<+>", "}", ";", "r", ".", "k", ";">>,
+  <<"var", "r", "=", "<L1>", "<+>", "-", "<+>", "0", ";", "r", ";">>,
+  <<"var", "r", "=", "<c1>", "<+>", "<L1>", ";", "r", ";">>,
+  <<"var", "r", "=", "<L1>", "<+>", "*", "<+>", "1", ";", "r", ";">>
+>>
+\* a member access directly after the literal: a literal that is all digits would take the dot as its own (5.valueOf
+\* is "5." followed by a name: not generated); the base rendering writes the value with a fraction there
+NumCtxDot == {9}
+AllDigits(us) == \A ui \in 1..Len(us) : IsDigit(us[ui])
+NctxValues == IF Quick THEN {<<0, 0>>, <<1000, 0>>, <<1, 1>>, <<3, 1>>, <<1, 4>>}
+              ELSE {<<0, 0>>, <<1, 0>>, <<10, 0>>, <<255, 0>>, <<1000, 0>>, <<1, 1>>, <<3, 1>>, <<5, 3>>, <<1, 4>>}
+NctxExps   == IF Quick THEN {-1, 0, 3} ELSE {-10, -1, 0, 1, 3, 10}
+NctxRadixValues == IF Quick THEN {<<14, 0>>, <<255, 0>>} ELSE {<<0, 0>>, <<14, 0>>, <<30, 0>>, <<255, 0>>}
+NctxFormDescs  == NumFormDescs(NctxValues, NctxExps, IF Quick THEN {0} ELSE {0, 1})
+NctxRadixDescs == RadixFormDescs(NctxRadixValues, {0, 1})
+NctxCase(ci, kk, jj, tx) == CaseH("nctx", <<kk, jj, ci>>, NumCtx[ci], tx, IF ci \in NumCtxDot THEN CanonNumDot(kk, jj) ELSE CanonNum(kk, jj), <<>>)
+NctxDescsFor(ci) == {ds \in NctxFormDescs : ci \in NumCtxDot => ~AllDigits(NumFormText(ds))}
+NctxCases(ci) == {NctxCase(ci, ds[1], ds[2], NumFormText(ds)) : ds \in NctxDescsFor(ci)} \cup {NctxCase(ci, ds[1], 0, RadixFormText(ds)) : ds \in NctxRadixDescs}
+
+\* the literal's text -> its value in normal form: significant digits (no leading / trailing zero; <<>> = zero) and the
+\* power of ten of the last one.  Digit strings, not integers: no bound on the length of the mantissa.
+Norm10(digs, ex) == LET a1 == StripLZ(digs)  a2 == StripTZ(a1) IN
+                    [ok |-> TRUE, ds |-> a2, e10 |-> IF a2 = <<>> THEN 0 ELSE ex + (Len(a1) - Len(a2))]
+NumLitN(us) ==
+  LET bad == [ok |-> FALSE, ds |-> <<>>, e10 |-> 0] IN
+  IF Len(us) >= 3 /\ us[1] = 48 /\ us[2] \in {120, 88, 111, 79, 98, 66}
+  THEN LET radix == IF us[2] \in {120, 88} THEN 16 ELSE IF us[2] \in {111, 79} THEN 8 ELSE 2
+           vv == RadixVal(SubSeq(us, 3, Len(us)), radix, 0)
+       IN IF vv < 0 THEN bad ELSE Norm10(DigitsOfN(vv), 0)
+  ELSE
+    LET i1 == TakeDigits(us, 1)
+        hasdot == i1 <= Len(us) /\ us[i1] = 46
+        f0 == IF hasdot THEN i1 + 1 ELSE i1
+        f1 == IF hasdot THEN TakeDigits(us, f0) ELSE i1
+        hasexp == f1 <= Len(us) /\ us[f1] \in {101, 69}
+        sgnpos == f1 + 1
+        hassign == hasexp /\ sgnpos <= Len(us) /\ us[sgnpos] \in {43, 45}
+        e0 == IF hassign THEN sgnpos + 1 ELSE sgnpos
+        e1 == IF hasexp THEN TakeDigits(us, e0) ELSE f1
+        intd == SubSeq(us, 1, i1 - 1)
+        frd  == IF hasdot THEN SubSeq(us, f0, f1 - 1) ELSE <<>>
+        ev == IF hasexp /\ e1 > e0 /\ e1 - e0 <= 4 THEN RadixVal(SubSeq(us, e0, e1 - 1), 10, 0) ELSE 0
+        en == IF hassign /\ us[sgnpos] = 45 THEN 0 - ev ELSE ev
+    IN IF (intd = <<>> /\ frd = <<>>) \/ (hasexp /\ (e1 = e0 \/ e1 - e0 > 4)) \/ e1 # Len(us) + 1
+          \/ (Len(intd) > 1 /\ intd[1] = 48)                            \* legacy octal / leading zero: not in the fragment
+       THEN bad
+       ELSE Norm10(intd \o frd, en - Len(frd))
+DenotesN(lit, kk, jj) == lit.ok /\ LET nv == Norm10(DigitsOfN(kk * Pow5(jj)), 0 - jj) IN lit.ds = nv.ds /\ lit.e10 = nv.e10
+
+\* coverage of the sub-grids (checked once, in the initial state of the Enum run): whatever the tier, every mantissa
+\* shape stands with every exponent form, every sign class of the exponent's value occurs with one and with two digits,
+\* every radix form occurs, and every position holds every mantissa shape with every exponent letter and sign and every
+\* radix form.  The hand-written spellings denote their values for the library's NumLit / Denotes as well.
+SgnOf(ee) == IF ee < 0 THEN -1 ELSE IF ee > 0 THEN 1 ELSE 0
+FormGrid(DS, zps, dotctx) ==
+  /\ \A shp \in MantShapes : (dotctx /\ shp = "int") \/ \E ds \in DS : ds[4] = shp /\ ds[5] = 0
+  /\ \A shp \in MantShapes, lt \in {101, 69}, sg \in ExpSigns, zp \in zps :
+        \E ds \in DS : ds[4] = shp /\ ds[5] = lt /\ ds[6] = sg /\ ds[7] = zp
+  /\ \A shp \in MantShapes, sn \in {-1, 0, 1} : \E ds \in DS : ds[4] = shp /\ SgnOf(ds[3]) = sn
+RadixGrid(DS, nzs) == \A radix \in {16, 8, 2}, px \in {"l", "u"}, nz \in nzs : \A md \in DigitCases(radix) :
+                         \E ds \in DS : ds[2] = radix /\ ds[3] = px /\ ds[4] = md /\ ds[5] = nz
+NumGridLaw ==
+  /\ FormGrid(NumFormDescsAll, {0, 1}, FALSE)
+  /\ \A sn \in {-1, 1}, big \in BOOLEAN : \E ds \in NumFormDescsAll : SgnOf(ds[3]) = sn /\ (big <=> (ds[3] >= 10 \/ ds[3] <= -10))
+  /\ RadixGrid(RadixFormDescsAll, {0, 1, 2})
+  /\ \A ci \in 1..Len(NumCtx) : FormGrid(NctxDescsFor(ci), {0}, ci \in NumCtxDot)
+  /\ RadixGrid(NctxRadixDescs, {0, 1})
+  /\ \E ds \in NctxRadixDescs : ds[2] = 16 /\ ds[1] % 16 = 14                   \* a hex literal that ends in the digit e
+  /\ \A cs \in NumCasesAll : Denotes(NumLit(cs.u), cs.a[1], cs.a[2]) /\ DenotesN(NumLitN(cs.u), cs.a[1], cs.a[2])
+
 \* ---------------- Enum -------------------------------------------------------------------------
 VARIABLES ph, cur, rec_i
 vars == <<ph, cur, rec_i>>
 NoCase == [kind |-> "none", a |-> <<>>, toks |-> <<>>, u |-> <<>>, u0 |-> <<>>, u2 |-> <<>>]
 CaseT(kd, ds, ts) == [kind |-> kd, a |-> ds, toks |-> ts, u |-> <<>>, u0 |-> <<>>, u2 |-> <<>>]
-CanonNum(kk, jj) == IF jj = 0 THEN DigitsOfN(kk) ELSE FixedText(kk * Pow5(jj), jj)
 CaseU(cs) == [kind |-> cs.kind, a |-> cs.a, toks |-> <<>>, u |-> cs.u,
               u0 |-> IF cs.kind = "num" THEN CanonNum(cs.a[1], cs.a[2]) ELSE Spell(StrValues[cs.a[1]], 39, "raw"), u2 |-> <<>>]
 EnumInit == ph = "start" /\ cur = NoCase /\ rec_i = 0
@@ -296,6 +442,7 @@ O1Hi == LET hv == EnvNat("O1HI", NC) IN IF hv > NC THEN NC ELSE hv
 Groups == {<<"tree", o1>> : o1 \in O1Lo..O1Hi}
           \cup (IF O1Lo = 1 THEN {<<"rej", 0>>, <<"unexp", 0>>, <<"lit", 0>>} \cup {<<"prog", pi>> : pi \in 1..Len(Progs)}
                                   \cup {<<"cmt", ci>> : ci \in 1..Len(CmtCtx)} \cup {<<"strb", 39>>, <<"strb", 34>>, <<"ut", 0>>, <<"rx", 0>>}
+                                  \cup {<<"nform", 0>>} \cup {<<"nctx", ci>> : ci \in 1..Len(NumCtx)}
                 ELSE {})
 EnumNext ==
   \/ /\ ph = "start"
@@ -327,6 +474,10 @@ EnumNext ==
            /\ \E cs \in UtCases : cur' = cs
         \/ /\ cur.kind = "rx"
            /\ \E cs \in RxCases : cur' = cs
+        \/ /\ cur.kind = "nform"
+           /\ \E cs \in NumFormCases : cur' = CaseU(cs)
+        \/ /\ cur.kind = "nctx"
+           /\ \E cs \in NctxCases(cur.a[1]) : cur' = cs
 EnumEmit == ph # "case" \/ PrintT(ToJson(cur))
 
 \* ---------------- Laws (INVARIANT in the Enum configuration) -----------------------------------
@@ -343,10 +494,14 @@ Law(cs) ==
          /\ ParseExprD(cs.toks, {"Dev_TargetUnchecked"}).ok               \* ... and only because of the target rule
     [] cs.kind = "unexp" -> ~ParseExpr(cs.toks).ok /\ ParseExprD(cs.toks, {"Dev_UnaryExp"}).ok
     [] cs.kind = "num" ->
-         LET lit == NumLit(cs.u)
-             fsm == Lex(ClassesOfUnits(cs.u), FALSE, {}) IN
-         /\ Denotes(lit, cs.a[1], cs.a[2])
+         LET fsm == Lex(ClassesOfUnits(cs.u), FALSE, {}) IN
+         /\ DenotesN(NumLitN(cs.u), cs.a[1], cs.a[2]) /\ DenotesN(NumLitN(cs.u0), cs.a[1], cs.a[2])
          /\ fsm.err.k = "none" /\ Len(fsm.out) = 1 /\ fsm.out[1].k = "num"     \* one numeric token for the lexical grammar
+    [] cs.kind = "nctx" ->                                                \* both texts denote the value; one numeric token each
+         LET fsm == Lex(ClassesOfUnits(cs.u), FALSE, {}) IN
+         /\ DenotesN(NumLitN(cs.u), cs.a[1], cs.a[2]) /\ DenotesN(NumLitN(cs.u0), cs.a[1], cs.a[2])
+         /\ fsm.err.k = "none" /\ Len(fsm.out) = 1 /\ fsm.out[1].k = "num"
+         /\ (cs.a[3] \in NumCtxDot => ~AllDigits(cs.u) /\ ~AllDigits(cs.u0))
     [] cs.kind = "str" ->
          LET lit == StrLit(cs.u)
              fsm == Lex(ClassesOfUnits(cs.u), FALSE, {}) IN
@@ -375,7 +530,7 @@ Law(cs) ==
     [] cs.kind = "rxdel" -> Lex(ClassesOfUnitsX(cs.u \o <<10>>), TRUE, {}).err.k = "unterminated-regex"
     [] cs.kind = "rxnl" -> Lex(ClassesOfUnitsX(cs.u), TRUE, {}).err.k = "unterminated-regex"
     [] OTHER -> FALSE
-LawsHold == ph # "case" \/ Law(cur)
+LawsHold == (ph = "start" => NumGridLaw) /\ (ph # "case" \/ Law(cur))
 
 \* ---------------- Judge ------------------------------------------------------------------------
 \* records: [id, kind, a, toks, u, lay, act, act0, ev0, ev1, ast0, ast1]   (act0 = parse of the base rendering)
@@ -499,10 +654,21 @@ JudgeCmt(r) ==
 
 \* literal spellings: act = [o, v] value of the spelling, ev0 = value of the canonical spelling
 JudgeNum(r) ==
-  LET lit == NumLit(r.u) IN
-  IF ~Denotes(lit, r.a[1], r.a[2]) THEN Unsup("spelling does not denote the value")
+  IF ~DenotesN(NumLitN(r.u), r.a[1], r.a[2]) THEN Unsup("spelling does not denote the value")
   ELSE IF r.ev1.o = "value" /\ r.ev1.v.k = "num" /\ r.ev1.v.w = WordsOfDyadic(r.a[1], r.a[2]) /\ SameOutcome(r.ev0, r.ev1) THEN Pass
   ELSE Mis("", "literal spelling denotes another value")
+\* a spelling written into a position: r.u / r.u0 = the rendered program with the spelling / with the canonical
+\* spelling.  Both must be the same token kinds for the lexical machine (else the case is not what it claims:
+\* machinery); the engine must give the literal's value for both.
+JudgeNumCtx(r) ==
+  IF ~TextSupportedX(r.u) \/ ~TextSupportedX(r.u0) THEN Unsup("text outside the class alphabet")
+  ELSE LET lv == Lex(ClassesOfUnitsX(r.u), TRUE, {})
+           lb == Lex(ClassesOfUnitsX(r.u0), TRUE, {}) IN
+       IF lv.err.k # "none" \/ lb.err.k # "none" \/ KindsOf(lv.out) # KindsOf(lb.out) \/ ~Balanced(KindsOf(lb.out))
+       THEN Unsup("variant is not the base program with another spelling of the literal")
+       ELSE IF r.ev1.o = "value" /\ r.ev1.v.k = "num" /\ r.ev1.v.w = WordsOfDyadic(r.a[1], r.a[2]) /\ SameOutcome(r.ev0, r.ev1) THEN Pass
+       ELSE IF r.ev1.o = "syntax" THEN Mis("", "literal spelling rejected in this position")
+       ELSE Mis("", "literal spelling denotes another value in this position")
 JudgeStr(r) ==
   LET lit == StrLit(r.u) IN
   IF ~lit.ok THEN Unsup("not a string literal")
@@ -517,6 +683,7 @@ Verdict(r) ==
     [] r.kind = "strb" -> JudgeStr(r)
     [] r.kind = "pvariant" -> JudgeProgVariant(r)
     [] r.kind = "num" -> JudgeNum(r)
+    [] r.kind = "nctx" -> JudgeNumCtx(r)
     [] r.kind = "str" -> JudgeStr(r)
     [] OTHER -> Unsup("unknown kind")
 JudgeInit == /\ rec_i \in 1..Len(Recs) /\ ph = "judge" /\ cur = NoCase
